@@ -1251,6 +1251,11 @@ where
         BodySize::Chunked => ParsingPhase::Chunks { first: true },
         BodySize::Length(0) => ParsingPhase::Terminated,
         BodySize::Length(_) => ParsingPhase::Body,
+        // HEADERS carrying END_STREAM on a message that gets no synthesised
+        // Content-Length (1xx, 204, 304): nothing follows, the message is
+        // complete. Left in the chunk phase, an HTTP/1.1 frontend never saw
+        // the response as finished and its connection hung until a timeout.
+        BodySize::Empty if end_stream => ParsingPhase::Terminated,
         BodySize::Empty => ParsingPhase::Chunks { first: true },
     };
     // The phase we just selected must be consistent with the framing: a
